@@ -474,9 +474,11 @@ def rollbackValues (w : WS) : M Unit := do
 def removeCreatedStores (w : WS) : M Unit := do
   for st in w.stores do
     whenM st.created (do
+      -- removing the store removes its folder: the registry entries and blobs of its (all new) nodes go with it
       let _ ← attempt (call .srRemove (.store st.store)
-        (fun s => { s with storeExists := fun k => if k = st.store then false else s.storeExists k,
-                           cnt := fun k => if k = st.store then 0 else s.cnt k })))
+        (fun s => { ((s.delRegs (st.root ++ st.added)).delBlobs (st.root ++ st.added)) with
+                      storeExists := fun k => if k = st.store then false else s.storeExists k,
+                      cnt := fun k => if k = st.store then 0 else s.cnt k })))
 
 /-- `Transaction.rollback(ctx, rollbackTrackedItemsValues)`. Errors are collected, never short-circuit. -/
 def rollback (w : WS) (values : Bool) : M Unit := do
